@@ -4,11 +4,17 @@ from fractions import Fraction as F
 from vcheck import fmt_q, fmt_vec, fmt_crs
 import gen
 from props.common import diff_run
+from props import blockvals as bv
 
-DRIVERS = ["kernels"]
+DRIVERS = ["kernels", "kernels_block"]
 ASSUMPTIONS = [
     "the builtin backend instantiated with the exact rational vq::Q executes the same template code as with double",
-    "block_crs/Eigen/hybrid backends and block/complex value types: see DESIGN.md (compared against the scalar model only)",
+    "block_crs/Eigen/hybrid backends: compared against the scalar model only (see DESIGN.md)",
+    "block values: static_matrix<vq::Q,b,b>, b = 2, 3, builtin backend; vector entries static_matrix<vq::Q,b,1> are carried in the model as column-0 blocks (BlockInst.blk_col; closure under the operations used is proved in NcRingBlock.v and re-checked on every output)",
+    "complex values: std::complex<double> on small dyadic Gaussian rationals (every + - * exact in binary64) vs the Coq instance ComplexS QcS; no division, abs or sqrt of complex numbers is exercised",
+]
+TRUSTED_BASE = [
+    "block/complex cases: harness/drv_kernels_block.cpp, ocaml/kernels/ops_kernels_block.ml, tools/props/blockvals.py (python expansion of block matrices to scalar matrices for the scalar-twin oracle)",
 ]
 
 def cases(tier, seed):
@@ -100,11 +106,200 @@ def cases(tier, seed):
         rows = drows(nh, nh, mx=5); Ah = fmt_crs(nh, nh, rows); xh = dvec(nh); yh = dvec(nh)
         add("hyb_spmv", " ".join([str(bh), fmt_q(al), Ah, fmt_vec(xh), fmt_q(be_), junk(nh) if be_ == 0 else fmt_vec(yh)]))
         add("hyb_residual", " ".join([str(bh), fmt_vec(dvec(nh)), Ah, fmt_vec(xh), junk(nh)]))
+    # --- block and complex value types (harness/drv_kernels_block.cpp) ---
+    for op, payload in block_cases(tier, seed):
+        add(op, payload)
     return out
+
+# ------------------------------------------------------------------ block / complex value types
+BSTAT = {}
+
+def block_cases(tier, seed):
+    """(op, payload) for the ops of harness/drv_kernels_block.cpp"""
+    r = random.Random(seed * 1000 + 707)
+    N = 140 if tier == "quick" else 1400
+    out = []; mats = []
+    def add(op, *parts): out.append((op, " ".join(str(p_) for p_ in parts)))
+    def kinds(*kcs): return "".join(k for k, _ in kcs)
+    for it in range(N):
+        b = r.choice([2, 2, 3])
+        n = r.choice([0, 1, 1, 2, 3, 4, 5]) if it % 9 else r.randint(6, 14 if tier == "quick" else 40)
+        m = r.choice([n, n, max(1, n + r.randint(-2, 3))])
+        rows = bv.rbcrs(r, b, n, m, dups=(r.random() < 0.3)); mats.append((rows, b))
+        A = bv.fmt_bcrs(n, m, rows)
+        V = lambda k: bv.fmt_bvec(gen.rvec(r, k * b), b)
+        x, y, f = V(m), V(n), V(n)
+        al, be_ = bv.bcoef(r, b), bv.bcoef(r, b)
+        # spmv: every coefficient-kind pair; block vectors, and scalar vectors passed in their place
+        add("bk.spmv", b, kinds(al, be_), "bb", bv.fmt_coef(al), A, x, bv.fmt_coef(be_), y)
+        add("bk.spmv", b, kinds(al, be_), r.choice(["ss", "ss", "sb", "bs"]), bv.fmt_coef(al), A, x, bv.fmt_coef(be_), y)
+        add("bk.residual", b, "bbb", f, A, x, y)
+        add("bk.residual", b, r.choice(["sss", "sss", "sbb", "bsb", "bbs"]), f, A, x, y)
+        a, bq, c = bv.bcoef(r, b), bv.bcoef(r, b), bv.bcoef(r, b)
+        u, v, w = V(n), V(n), V(n)
+        add("bk.axpby", b, kinds(a, bq), bv.fmt_coef(a), u, bv.fmt_coef(bq), v)
+        add("bk.axpbypcz", b, kinds(a, bq, c), bv.fmt_coef(a), u, bv.fmt_coef(bq), v, bv.fmt_coef(c), w)
+        X = [bv.rblock(r, b) for _ in range(n)]; mats.append(([[(0, B) for B in X]], b))
+        add("bk.vmul", b, kinds(a, bq), "bb", bv.fmt_coef(a), bv.fmt_blocks(X), v, bv.fmt_coef(bq), w)
+        if it % 2 == 0:
+            add("bk.vmul", b, kinds(a, bq), "ss", bv.fmt_coef(a), bv.fmt_blocks(X), v, bv.fmt_coef(bq), w)
+        if it % 3 == 0:
+            Y = [bv.rblock(r, b) for _ in range(n)]; Z = [bv.rblock(r, b) for _ in range(n)]
+            add("bk.vmul_mm", b, kinds(a, bq), bv.fmt_coef(a), bv.fmt_blocks(X), bv.fmt_blocks(Y), bv.fmt_coef(bq), bv.fmt_blocks(Z))
+            add("bk.inner_mm", b, bv.fmt_blocks(X), bv.fmt_blocks(Y))
+        add("bk.copy", b, u, v); add("bk.clear", b, u)
+        add("bk.inner", b, u, v)
+        nv = r.choice([1, 2, 3, 4, 5, 6, 7])
+        kc = r.choice(["s", "m"]); alc = bv.bcoef(r, b)
+        parts = [str(nv)]
+        for _ in range(nv):
+            cj = bv.bcoef(r, b)
+            while cj[0] != kc: cj = bv.bcoef(r, b)
+            parts += [bv.fmt_coef(cj), V(n)]
+        add("bk.lin_comb", b, kc + alc[0], " ".join(parts), bv.fmt_coef(alc), w)
+        if it % 4 == 0:
+            B1, B2 = bv.rblock(r, b), bv.rblock(r, b)
+            add("bk.mul", b, bv.fmt_blk(B1), bv.fmt_blk(B2)); add("bk.adjoint", b, bv.fmt_blk(B1)); add("bk.norm", b, bv.fmt_blk(B1))
+    BSTAT.clear(); BSTAT.update(bv.noncommuting_fraction(r, mats))
+    # ---- complex
+    for it in range(N):
+        n = r.choice([0, 1, 1, 2, 3, 4, 5, 7]); m = r.choice([n, n, max(1, n + r.randint(-2, 3))])
+        rows = bv.rccrs(r, n, m, dups=(r.random() < 0.3)); A = bv.fmt_ccrs(n, m, rows)
+        CV = lambda k: bv.fmt_cvec([bv.rcx(r) for _ in range(k)])
+        al, be_ = bv.ccoef(r), bv.ccoef(r)
+        add("cx.spmv", kinds(al, be_), bv.fmt_ccoef(al), A, CV(m), bv.fmt_ccoef(be_), CV(n))
+        add("cx.residual", CV(n), A, CV(m), CV(n))
+        a, bq = bv.ccoef(r), bv.ccoef(r)
+        add("cx.axpby", kinds(a, bq), bv.fmt_ccoef(a), CV(n), bv.fmt_ccoef(bq), CV(n))
+        add("cx.vmul", kinds(a, bq), bv.fmt_ccoef(a), CV(n), CV(n), bv.fmt_ccoef(bq), CV(n))
+        k3 = r.choice(["ccc", "ccc", "rrr", "crc", "rcr"])
+        def ck(kind):
+            z = bv.ccoef(r)
+            while z[0] != kind: z = bv.ccoef(r)
+            return bv.fmt_ccoef(z)
+        add("cx.axpbypcz", k3, ck(k3[0]), CV(n), ck(k3[1]), CV(n), ck(k3[2]), CV(n))
+        add("cx.copy", CV(n), CV(n)); add("cx.clear", CV(n))
+        add("cx.inner", CV(n), CV(n))
+        nv = r.choice([1, 2, 3, 4, 5]); kc = r.choice(["c", "c", "r"]); ka = r.choice(["c", "c", "r"])
+        parts = [str(nv)]
+        for _ in range(nv): parts += [ck(kc), CV(n)]
+        add("cx.lin_comb", kc + ka, " ".join(parts), ck(ka), CV(n))
+    return out
+
+
+def scalar_twin(op, payload):
+    """block case with base-scalar coefficients -> the SCALAR case (ops of drv_kernels / ops_kernels.ml) on the
+    expanded (unblocked) matrix and the flattened vectors; the outputs must be identical (C07 A4)"""
+    t = bv.Toks(payload)
+    try:
+        b = t.i()
+        if op == "bk.spmv":
+            k = t.s(); t.s()
+            if k != "ss": return None
+            al = t.q(); n, m, rows = t.bcrs(b); x = t.bvec(b); be_ = t.q(); y = t.bvec(b)
+            return "spmv", " ".join([fmt_q(al), fmt_crs(n * b, m * b, bv.b_expand(rows, b)), fmt_vec(x), fmt_q(be_), fmt_vec(y)])
+        if op == "bk.residual":
+            t.s(); f = t.bvec(b); n, m, rows = t.bcrs(b); x = t.bvec(b); rr = t.bvec(b)
+            return "residual", " ".join([fmt_vec(f), fmt_crs(n * b, m * b, bv.b_expand(rows, b)), fmt_vec(x), fmt_vec(rr)])
+        if op == "bk.axpby":
+            if t.s() != "ss": return None
+            a = t.q(); x = t.bvec(b); c = t.q(); y = t.bvec(b)
+            return "axpby", " ".join([fmt_q(a), fmt_vec(x), fmt_q(c), fmt_vec(y)])
+        if op == "bk.axpbypcz":
+            if t.s() != "sss": return None
+            a = t.q(); x = t.bvec(b); c = t.q(); y = t.bvec(b); d = t.q(); z = t.bvec(b)
+            return "axpbypcz", " ".join([fmt_q(a), fmt_vec(x), fmt_q(c), fmt_vec(y), fmt_q(d), fmt_vec(z)])
+        if op == "bk.vmul":
+            k = t.s(); t.s()
+            if k != "ss": return None
+            a = t.q(); X = t.blocks(b); y = t.bvec(b); c = t.q(); z = t.bvec(b)
+            n = len(X); rows = [[(i, B)] for i, B in enumerate(X)]       # block-diagonal matrix
+            return "spmv", " ".join([fmt_q(a), fmt_crs(n * b, n * b, bv.b_expand(rows, b)), fmt_vec(y), fmt_q(c), fmt_vec(z)])
+        if op == "bk.copy":
+            x = t.bvec(b); y = t.bvec(b); return "copy", fmt_vec(x) + " " + fmt_vec(y)
+        if op == "bk.clear":
+            x = t.bvec(b); return "clear", fmt_vec(x)
+        if op == "bk.inner":
+            x = t.bvec(b); y = t.bvec(b); return "inner", fmt_vec(x) + " " + fmt_vec(y)
+        if op == "bk.lin_comb":
+            if t.s() != "ss": return None
+            nv = t.i(); parts = [str(nv)]
+            for _ in range(nv): c = t.q(); v = t.bvec(b); parts += [fmt_q(c), fmt_vec(v)]
+            al = t.q(); y = t.bvec(b)
+            return "lin_comb", " ".join(parts + [fmt_q(al), fmt_vec(y)])
+    except Exception:
+        return None
+    return None
+
+
+def cx_inner_ref(payload):
+    """sum_i x_i * conj(y_i), computed here with exact fractions (conjugate-linear in the SECOND argument)"""
+    t = payload.split(); p_ = 0
+    def cvec():
+        nonlocal p_
+        n = int(t[p_]); p_ += 1; v = []
+        for _ in range(n): v.append((F(t[p_]), F(t[p_ + 1]))); p_ += 2
+        return v
+    x = cvec(); y = cvec(); acc = (F(0), F(0))
+    for a, c in zip(x, y): acc = bv.cx_add(acc, bv.cx_mul(a, bv.cx_conj(c)))
+    return "%s,%s" % (fmt_q(acc[0]), fmt_q(acc[1]))
+
+
+def block_run(ctx, blines):
+    """block / complex cases: correspondence at two thread counts + scalar-twin oracle + sesquilinearity reference"""
+    fails = []
+    nts = ["1", "3"] if ctx["tier"] == "quick" else ["1", "2", "3", "5", "8"]
+    impl1 = {}
+    for k, nt in enumerate(nts):
+        ls = blines if k == 0 else blines[::2]
+        f, impl, model = diff_run(ctx, "kernels_block", ls, env={"OMP_NUM_THREADS": nt}, shards=(16 if nt == "1" else 4))
+        for x in f: x["theorem"] = "correspondence drv_kernels_block (%s, OMP_NUM_THREADS=%s) vs Kernels.v at BlockS QcS b / ComplexS QcS; spec theorems C07_nc_*, C07_complex_*" % (x["op"], nt)
+        fails += f
+        if k == 0: impl1 = impl
+    # scalar twins: the proved scalar model on the expanded matrix must give the block implementation's numbers
+    twins = []; of = {}
+    for l in blines:
+        cid, op, payload = l.split(" ", 2)
+        tw = scalar_twin(op, payload)
+        if tw and impl1.get(cid) is not None and not impl1[cid].startswith(("EXC", "CRASH", "UNSUPPORTED", "BAD")):
+            twins.append("%s %s %s" % (cid, tw[0], tw[1])); of[cid] = l
+    if twins:
+        res = ctx["run_driver"](ctx["model"], twins)
+        for tl in twins:
+            cid = tl.split(" ", 1)[0]
+            ctx["stats"]["oracle_checks"] += 1
+            if res.get(cid) != impl1.get(cid):
+                ctx["stats"]["oracle_fail"] += 1
+                fails.append(dict(kind="counterexample", case=of[cid], impl=impl1.get(cid), model=res.get(cid), op=of[cid].split(" ", 2)[1],
+                                  oracle=dict(op="scalar-twin " + tl.split(" ", 2)[1], result=res.get(cid), line=tl[:2000]), size=len(of[cid]),
+                                  theorem="C07 A4: block-valued primitive = scalar primitive on the expanded matrix / flattened vectors (scalar model, theorems C07_*_formula)"))
+    for l in blines:
+        cid, op, payload = l.split(" ", 2)
+        if op == "cx.inner" and impl1.get(cid) is not None:
+            ctx["stats"]["oracle_checks"] += 1
+            ref = cx_inner_ref(payload)
+            if impl1[cid] != ref:
+                ctx["stats"]["oracle_fail"] += 1
+                fails.append(dict(kind="counterexample", case=l, impl=impl1[cid], model=ref, op=op, size=len(l),
+                                  oracle=dict(op="sum x_i conj(y_i)", result=ref, line=l[:2000]),
+                                  theorem="C07 inner_product is conjugate-linear in the second argument (C07_complex_inner_product_sesquilinear)"))
+    if BSTAT:
+        ctx["log"].append(("C07 block generators: stored blocks / scalar / diagonal / symmetric; sampled pairs / non-commuting",
+                           "%(blocks)d / %(scalar)d / %(diagonal)d / %(symmetric)d; %(pairs)d / %(noncommuting)d" % BSTAT))
+    return fails
+
+
+def is_block_line(l):
+    return l.split(" ", 2)[1].startswith(("bk.", "cx."))
+
 
 def run(ctx, cases_override=None):
     lines = cases_override or cases(ctx["tier"], ctx["seed"])
     fails = []
+    blines = [l for l in lines if is_block_line(l)]
+    lines = [l for l in lines if not is_block_line(l)]
+    if blines: fails += block_run(ctx, blines)
+    if not lines: return fails
     # exact runs at several thread counts: serial/parallel inner product, omp-for kernels
     nts = ["1", "3"] if ctx["tier"] == "quick" else ["1", "2", "3", "4", "5", "8", "17"]
     for k, nt in enumerate(nts):
